@@ -60,6 +60,8 @@ def to_code(v):
         return "bytes.fromhex(%r)" % bytes(v).hex()
     if isinstance(v, memoryview):
         return "bytes.fromhex(%r)" % bytes(v).hex()
+    if isinstance(v, int) and not isinstance(v, bool) and v.bit_length() >= 13000:
+        return hex(v)
     return repr(v)
 
 
@@ -73,7 +75,7 @@ def show(v):
     if isinstance(v, bool) or v is None:
         return v
     if isinstance(v, int):
-        return str(v)
+        return str(v) if v.bit_length() < 13000 else hex(v)       # CPython >= 3.11 refuses decimal conversion beyond 4300 digits
     if isinstance(v, Recipe):
         return "expr:" + v.expr
     if isinstance(v, str):
